@@ -252,7 +252,8 @@ def pass_a(blobs, decoded, wd):
     if not os.path.exists(blobs) or os.path.getsize(blobs) == 0:
         open(decoded, "w").close()
         return []
-    r = tlc("Decode", wd=wd, workers=1, env={"BLOBS": blobs, "DECODED": decoded}, timeout=1800, overrides=os.path.exists(os.path.join(OVERRIDES, "RdpPrims.class")))
+    big = os.path.getsize(blobs) > 150 * 1024 * 1024
+    r = tlc("Decode", wd=wd, workers=1, env={"BLOBS": blobs, "DECODED": decoded}, timeout=2400, xmx="20g" if big else "8g", overrides=os.path.exists(os.path.join(OVERRIDES, "RdpPrims.class")))
     if r.rc != 0:
         raise ToolError("pass A (Decode) failed:\n" + tail(r.out))
     return [json.loads(x) for x in open(decoded) if x.strip()]
